@@ -45,7 +45,7 @@ func c07FillerOfLen(r *Rand, n int, noctx bool) string {
 func c07BuildExpr(b *c07Built, w *c07WF, rr *Rand, sh c07Shift, cat *c07Catalogue, wantFlow *bool) {
 	// the diagnostic class is drawn first, then a site that can host it, then the entry, so that
 	// every class gets the same share of the cases
-	classes := []string{"lexer", "lexer-eof", "parser", "sema-var", "sema-func", "sema-prop", "sema-type", "avail", "untrusted", "template"}
+	classes := []string{"lexer", "lexer-eof", "parser", "sema-var", "sema-func", "sema-prop", "sema-type", "sema-arg", "sema-arg", "sema-sub", "avail", "untrusted", "template"}
 	want := classes[rr.Intn(len(classes))]
 	var pool []*c07ExprErr
 	for i := range cat.exprErrs {
@@ -85,6 +85,19 @@ func c07BuildExpr(b *c07Built, w *c07WF, rr *Rand, sh c07Shift, cat *c07Catalogu
 	if len(fits) == 0 {
 		b.ok, b.why = false, "no site for "+ee.text()
 		return
+	}
+	if (ee.end || ee.class == "lexer-eof" || ee.tag == "bareonly") && (pick>>12)%3 == 0 {
+		// diagnostics at the end of input have no absolute convention in a bare condition: make sure
+		// the bare placements get a fair share (they are 5 of ~110 placements)
+		var bare []sm
+		for _, f := range fits {
+			if f.mode == "bare" {
+				bare = append(bare, f)
+			}
+		}
+		if len(bare) > 0 {
+			fits = bare
+		}
 	}
 	site, mode := fits[pick%len(fits)].site, fits[pick%len(fits)].mode
 	noctx := c07HasTag(site.tags, "nocontext")
@@ -236,6 +249,13 @@ func c07BuildExpr(b *c07Built, w *c07WF, rr *Rand, sh c07Shift, cat *c07Catalogu
 	b.expects = append(b.expects, c07Expect{msg: ee.msg, anchor: 't', off: off, abs: abs})
 	for _, m := range ee.also {
 		b.expects = append(b.expects, c07Expect{msg: m, anchor: 't', off: off, abs: abs, optional: true})
+	}
+	for _, x := range ee.extra {
+		// off - anchorInExpr is the start of the expression text inside the scalar
+		b.expects = append(b.expects, c07Expect{msg: x.msg, anchor: 't', off: off - anchorInExpr + len(wr.pre) + x.off, abs: true})
+	}
+	if ee.sub != "" {
+		b.info["sub:"+ee.class+":"+ee.sub] = 1
 	}
 	for _, m := range []string{"type of expression", "\"if\" condition should be type", "default value of input"} {
 		b.expects = append(b.expects, c07Expect{msg: m, anchor: 'n', abs: true, optional: true})
